@@ -18,14 +18,38 @@ Events (the environment's alphabet; an event that does not apply in the current 
   stop! | when:<k>!                         same as stop / when:<k>, but the consumer's callback on the returned Deferred raises
   stop^ | when:<k>^                         … the consumer's callback calls startService() (a re-entrant start: automat
                                             postpones it to the end of the transition that fired the Deferred)
-  adv:<t>                                   clock.advance(t)
+  adv:<t>                                   clock.advance(t)   (t time units)
+  cancel:<i>                                the CONSUMER cancels the i-th whenConnected Deferred (call order) if it has not fired yet
+                                            (Deferred.cancel(): it fails with CancelledError at once; the service must neither notice
+                                            nor trip over it when it later fires its waiters)
+
+Environment dimensions the service must not care about (added by the white-box mutation audit; each of them is
+projected away by `model_line`, i.e. the model's answer for the projected history is what the real service must do):
+  case["scale"] = k                         one time unit is 1/k second (k a power of two, so every float is exact):
+                                            retryPolicy(n) = (A*n + B)/k seconds, adv:<t> advances t/k seconds, the
+                                            snapshot shows the retry timer in units — fractional delays
+  case["app"] = "protocol" | "bare"         the application protocol: a twisted Protocol subclass, or a bare IProtocol
+                                            provider (no Protocol base class, no `.transport` attribute)
+  cfail@<reason>, drop:<i>[:<prog>]@<reason>   the exception class the attempt fails with / the connection is lost with
+                                            (_CFAIL / _DROP below: refused, timeout, DNS, CancelledError, ConnectionDone …)
+  csucc:none                                the endpoint connects but the application's factory declines the connection
+                                            (buildProtocol returns None): the endpoint fails the attempt with NoProtocol — a cfail
+  csucc:val | fired                         the prepareConnection hook returns a non-None value / an already fired Deferred (= ok)
+  csucc:failed | raiseb                     … returns an already failed Deferred / raises a BaseException subclass (= raise)
+  csucc:coro                                … is a coroutine that awaits a Deferred (= defer); prepokv fires it with a value (= prepok)
+  tstart tstop tconn tfail tdrop tadv       events of a SECOND ClientService (the twin) built on the SAME application factory
+                                            object, with its own endpoint and clock: invisible to the service under test
+                                            (no output entry, dropped from the model line); the oracle checks both ways
+                                            that neither service's events change anything the other one's environment sees
 """
 import hashlib
 
 from twisted.application.internet import ClientService
-from twisted.internet import defer, task
+from twisted.internet import defer, error, task
+from twisted.internet.interfaces import IProtocol
 from twisted.internet.protocol import Factory, Protocol
 from twisted.python.failure import Failure
+from zope.interface import implementer
 
 HEADLINE = ("TwistedProps.C58.no_rejected_event_partial / at_most_one_connection_or_attempt_partial / "
             "unsolicited_drop_schedules_retry_partial / drop_notifies_whatever_the_handler_does")
@@ -37,8 +61,22 @@ RULE = ("histories over the event alphabet {start, stop, when:-/0/1/2, csucc:<ho
         "reached snapshot, depth 7 quick / 9 thorough, capped at 600 / 6000 distinct snapshots; three alphabets: no hook, "
         "prepareConnection hook, no hook + connectionLost-handler programs) + random long "
         "histories (every drop carries a handler program with probability 1/2) + random connection-churn histories (connect / "
-        "lose with a random handler program); distinct = (final machine state, set of "
-        "(state,event-kind incl. handler class,outcome) triples seen, hook?)")
+        "lose with a random handler program). ENVIRONMENT DIMENSIONS (white-box mutation audit; every one is projected away for "
+        "the model, whose answer for the projected history is what the real service must do): time unit 1/k s with k in {1,2,4,8} "
+        "(fractional retry delays and clock advances, exact binary floats; policy (a*n+b)/k s); application protocol = Protocol subclass "
+        "or bare IProtocol provider without `.transport`; failure reason of an attempt (9 classes incl. CancelledError, ConnectionDone, "
+        "OSError) and loss reason of a connection (ConnectionDone, ConnectionLost, ConnectionAborted, reset, timeout, CancelledError) as "
+        "`@reason` suffixes; csucc:none = the application factory declines (buildProtocol → None, the endpoint fails the attempt with "
+        "NoProtocol); hook result kinds csucc:val / fired / failed / raiseb / coro and prepokv (non-None value, already fired / failed "
+        "Deferred, BaseException, coroutine awaiting a Deferred); a twin ClientService on the SAME factory object (tstart/tconn/tfail/"
+        "tdrop/tstop/tadv, own endpoint and clock) whose events must be invisible and which must not be disturbed; cancel:<i> = the "
+        "consumer cancels its pending whenConnected Deferred (driver bookkeeping: the model's service state does not change). Produced by: "
+        "two more breadth-first sweeps (ALPHA_ENV at 1/2 s, ALPHA_ENV_HOOK at 1/4 s, both with the bare protocol; depth 6 / 8, cap 300 / 3000), "
+        "`_decorate` on every second random / churn history (reasons on 70 % of failures and losses, 15 % declined, hook variants, "
+        "cancels, twin events in 45 %), 250 / 4000 waiter-churn histories (limits 0..4, consumers cancelling after failures were counted), "
+        "60 / 800 failure streaks of 12..130 consecutive failed attempts (each retry awaited exactly or generously, stop/start pairs in "
+        "between, then a connection and its loss) + 15 corpus witnesses; distinct = (final machine state, set of "
+        "(state,event-kind incl. handler class / reason / variant,outcome) triples seen, hook?, time unit, protocol kind, twin?)")
 ASSUMES = [
     "endpoint.connect() returns an unfired Deferred that errbacks when cancelled (no synchronous results, no canceller that succeeds)",
     "callbacks on whenConnected/stopService Deferreds and the prepareConnection hook do not call back into the service "
@@ -51,9 +89,12 @@ ASSUMES = [
     "leads to is decided by the endpoint, before the attempt's Deferred fires); retryPolicy returns a number (it is called "
     "inside the machine's state-data factory: a raising policy is a configuration fault outside the statement's histories); "
     "transport.loseConnection returns normally",
-    "whenConnected Deferreds are not cancelled by their consumer",
+    "a consumer may cancel its whenConnected Deferred (cancel:<i>, only from top level, not from inside a callback or handler); "
+    "stopService Deferreds are not cancelled by their consumer",
+    "services sharing an application factory object have separate endpoints and clocks (the twin's retry policy is a constant 3 s)",
     "a transport reports connectionLost exactly once, some time after loseConnection (event drop:<i>)",
-    "retry delays and clock advances are natural numbers (policy a*n+b in the tie; any function in the theorems)",
+    "retry delays and clock advances are natural numbers of time units of 1/k second, k in {1,2,4,8} (policy a*n+b units in the tie; "
+    "any function Nat → Nat in the theorems); delays that are not multiples of 1/8 s are not produced",
 ]
 TRUSTED = ["automat 25.4 TypeMachineBuilder semantics as transcribed in App/ClientService.lean (postponed re-entrant inputs, "
            "data factory runs before the transition's method)"]
@@ -67,7 +108,10 @@ MANIFEST = {
             "any exception), a consumer's re-entrant startService() from a Deferred callback is an ordinary start right after the firing "
             "call (consumer_restart_is_a_start_event, ALL histories), whenConnected waiters resolved by connection / failure limit / stop, stop Deferreds fire exactly when the "
             "connection is closed; at-most-once firing for ALL histories. Counterexample theorems for the prepareConnection paths, "
-            "replayed on the real service by the oracle.",
+            "replayed on the real service by the oracle. The tie additionally varies what the model abstracts from and the service "
+            "must not depend on: the time unit (fractional delays), the exception classes of failures and losses, the kind of "
+            "application protocol, a declining factory, what the hook returns (value / fired Deferred / coroutine), a second service "
+            "on the same factory object, consumers cancelling their whenConnected Deferred, and streaks of up to 130 consecutive failures.",
     "note": "the prepareConnection paths violate the property on the unchanged tree (findings prepare-drop-rejected, "
             "prepare-reject-leaks-connection, stop-during-prepare); trusts Lean kernel, the hand-written model (tied), automat, task.Clock",
     "technique": "Lean 4 inductive invariant over histories + differential tie with state hashing over the real service",
@@ -113,6 +157,26 @@ class _ConsumerError(Exception):
 _ACTS = {"w": "when:-", "l": "when:1", "m": "when:2", "S": "start", "T": "stop"}
 
 
+class _HookBase(BaseException):
+    """raised by the prepareConnection hook (csucc:raiseb)"""
+
+
+def _run_handler(w):
+    prog, w.handler = w.handler, None
+    if not prog:
+        return
+    w.in_handler = True
+    try:
+        for ch in prog:
+            if ch == "x":
+                raise _HandlerError("bug in application clean-up code")
+            if ch == "b":
+                raise _HandlerBase("non-Exception raised by application clean-up code")
+            w._apply(_ACTS[ch])
+    finally:
+        w.in_handler = False
+
+
 class _App(Protocol):
     """the application's protocol: its connectionLost runs the handler program chosen by the drop event"""
 
@@ -120,20 +184,31 @@ class _App(Protocol):
         self.world = world
 
     def connectionLost(self, reason=None):
-        w = self.world
-        prog, w.handler = w.handler, None
-        if not prog:
-            return
-        w.in_handler = True
-        try:
-            for ch in prog:
-                if ch == "x":
-                    raise _HandlerError("bug in application clean-up code")
-                if ch == "b":
-                    raise _HandlerBase("non-Exception raised by application clean-up code")
-                w._apply(_ACTS[ch])
-        finally:
-            w.in_handler = False
+        _run_handler(self.world)
+
+
+@implementer(IProtocol)
+class _BareApp:
+    """an application protocol that is NOT a twisted Protocol subclass: it provides IProtocol and nothing else
+    (in particular it keeps its transport under a name of its own: there is no `.transport`)"""
+
+    def __init__(self, world):
+        self.world = world
+        self._conn = None
+
+    def makeConnection(self, transport):
+        self._conn = transport
+        self.connectionMade()
+
+    def connectionMade(self):
+        pass
+
+    def dataReceived(self, data):
+        pass
+
+    def connectionLost(self, reason=None):
+        self._conn = None
+        _run_handler(self.world)
 
 
 class _AppFactory(Factory):
@@ -141,9 +216,55 @@ class _AppFactory(Factory):
         self.world = world
 
     def buildProtocol(self, addr):
-        p = _App(self.world)
+        if self.world.decline:              # csucc:none: the application does not want this connection
+            self.world.decline = False
+            return None
+        p = (_BareApp if self.world.app == "bare" else _App)(self.world)
         p.factory = self
         return p
+
+
+_CFAIL = {
+    "refused": lambda: error.ConnectionRefusedError(),
+    "timeout": lambda: error.TimeoutError(),
+    "dns": lambda: error.DNSLookupError("no such host"),
+    "cancelled": lambda: defer.CancelledError(),             # e.g. the endpoint's own time limit (Deferred.addTimeout / cancel)
+    "ccancelled": lambda: error.ConnectingCancelledError(None),
+    "done": lambda: error.ConnectionDone(),                  # the peer accepted and closed at once, before the endpoint reported
+    "user": lambda: error.UserError(),
+    "oserr": lambda: OSError(113, "No route to host"),
+    "noproto": lambda: error.NoProtocol(),
+}
+_DROP = {
+    "done": lambda: error.ConnectionDone(),                  # orderly close by the peer
+    "lost": lambda: error.ConnectionLost(),
+    "aborted": lambda: error.ConnectionAborted(),
+    "reset": lambda: ConnectionResetError("reset by peer"),
+    "timeout": lambda: error.TimeoutError(),
+    "cancelled": lambda: defer.CancelledError(),
+}
+_TWIN = ("tstart", "tstop", "tconn", "tfail", "tdrop", "tadv")
+_VARIANT = {"csucc:val": "csucc:ok", "csucc:fired": "csucc:ok", "csucc:failed": "csucc:raise", "csucc:raiseb": "csucc:raise",
+            "csucc:coro": "csucc:defer", "csucc:none": "cfail", "prepokv": "prepok"}
+
+
+def norm(ev):
+    """the event as the model knows it: reason dropped, environment variants mapped to the event they must behave as;
+    None for an event of the twin service"""
+    ev = ev.partition("@")[0]
+    if ev in _TWIN:
+        return None
+    return _VARIANT.get(ev, ev)
+
+
+def visible(case):
+    return [e for e in case["ev"] if norm(e) is not None]
+
+
+def _split(ev):
+    """(kind, arg) of the normalised event, `!`/`^` stripped"""
+    k, _, arg = norm(ev).rstrip("!^").partition(":")
+    return k, arg
 
 
 def parse_drop(arg):
@@ -169,11 +290,71 @@ class _Endpoint:
         return att["d"]
 
 
+class _Twin:
+    """a second ClientService on the same application factory object (own endpoint, own clock)"""
+
+    def __init__(self, factory):
+        self.clock = task.Clock()
+        self.attempts = []
+        self.conns = []
+        self.stops = []
+        twin = self
+
+        class Endpoint:
+            def connect(self, f):
+                att = {"factory": f, "d": defer.Deferred()}
+                twin.attempts.append(att)
+                return att["d"]
+
+        self.svc = ClientService(Endpoint(), factory, retryPolicy=lambda n: 3.0, clock=self.clock)
+
+    def live(self):
+        return [x for x in self.attempts if not x["d"].called]
+
+    def apply(self, ev):
+        if ev == "tstart":
+            self.svc.startService()
+        elif ev == "tstop":
+            st = ["p"]
+            self.stops.append(st)
+            self.svc.stopService().addCallback(lambda _: st.__setitem__(0, "d"))
+        elif ev == "tconn" and self.live():
+            att = self.live()[0]
+            proxy = att["factory"].buildProtocol(None)
+            t = _Transport()
+            self.conns.append((proxy, t))
+            proxy.makeConnection(t)
+            att["d"].callback(proxy)
+        elif ev == "tfail" and self.live():
+            self.live()[0]["d"].errback(Failure(error.ConnectionRefusedError()))
+        elif ev == "tdrop":
+            for proxy, t in self.conns:
+                if not t.closed:
+                    t.closed = True
+                    proxy.connectionLost(Failure(error.ConnectionLost()))
+                    break
+        elif ev == "tadv":
+            self.clock.advance(3)
+
+    def view(self):
+        return (len(self.attempts), len(self.live()), "".join("c" if t.closing else "o" for _, t in self.conns if not t.closed),
+                sorted(c.getTime() - self.clock.seconds() for c in self.clock.getDelayedCalls()),
+                [s[0] for s in self.stops], bool(self.svc.running))
+
+
+def world(case):
+    return World(case["a"], case["b"], case["hook"], case.get("scale", 1), case.get("app", "protocol"))
+
+
 class World:
     """The real ClientService plus everything around it; `apply` runs one event and returns the snapshot."""
 
-    def __init__(self, a, b, hook):
+    def __init__(self, a, b, hook, scale=1, app="protocol"):
         self.a, self.b = a, b
+        self.scale = scale
+        self.app = app
+        self.decline = False
+        self.twin = None
         self.clock = task.Clock()
         self.attempts = []          # every attempt ever made
         self.connects = 0
@@ -182,6 +363,8 @@ class World:
         self.nextprep = None
         self.waiters = []           # [ [status] ]
         self.wlimits = []           # failAfterFailures of each waiter
+        self.wdefs = []             # the Deferreds themselves (for cancel:<i>)
+        self.injected = []          # the exception instances the environment failed attempts / hooks with
         self.handler = None         # program for the next application connectionLost
         self.in_handler = False
         self.dead_fire = None       # a top-level whenConnected answered with a connection that was already closed
@@ -193,15 +376,27 @@ class World:
         def policy(n):
             d = a * n + b
             self.policy_calls.append((n, d))
-            return float(d)
+            return d / scale                # exact: scale is a power of two
 
         def prepare(proto):
             mode, self.nextprep = self.nextprep, None
             if mode == "raise":
                 raise RuntimeError("rejected")
-            if mode == "defer":
+            if mode == "raiseb":
+                raise _HookBase("rejected")
+            if mode == "failed":
+                return defer.fail(RuntimeError("rejected"))
+            if mode == "fired":
+                return defer.succeed("ready")
+            if mode == "val":
+                return "authenticated"
+            if mode in ("defer", "coro"):
                 d = defer.Deferred()
                 self.preps.append(d)
+                if mode == "coro":
+                    async def hook():
+                        return await d
+                    return hook()
                 return d
             return None
 
@@ -239,11 +434,13 @@ class World:
 
         def bad(f):
             n[0] += 1
-            st[0] = "x" if f.check(defer.CancelledError) else "f"
+            # `f`: failed with the exception an attempt failed with (whatever its class); `x`: cancelled by the service
+            st[0] = "f" if any(f.value is e for e in self.injected) else "x" if f.check(defer.CancelledError) else "f"
             if n[0] > 1:
                 st[0] = "TWICE"
 
         self.waiters.append(st)
+        self.wdefs.append(d)
         self.wlimits.append(limit)
         d.addCallbacks(ok, bad)
         if restart:
@@ -263,7 +460,19 @@ class World:
             out = "!" + type(e).__name__
         return out
 
+    def env_view(self):
+        """everything the environment of the service under test can see (no machine internals)"""
+        return ("".join("c" if c["t"].closing else "o" for c in self.open_conns()), len(self.attempts), len(self.live_attempts()),
+                len(self.pending_prep()), sorted(c.getTime() - self.clock.seconds() for c in self.clock.getDelayedCalls()),
+                [s[0] for s in self.waiters], [s[0] for s in self.stops], bool(self.svc.running))
+
     def _apply(self, ev):
+        ev, _, reason = ev.partition("@")
+        if ev in _TWIN:
+            if self.twin is None:
+                self.twin = _Twin(self.factory)
+            self.twin.apply(ev)
+            return "twin"
         angry = ev.endswith("!")
         restart = ev.endswith("^")
         if angry or restart:
@@ -297,7 +506,15 @@ class World:
                 return "skip"
             att = live[0]
             att["live"] = False
-            proxy = att["factory"].buildProtocol(None)
+            self.decline = arg == "none"
+            try:
+                proxy = att["factory"].buildProtocol(None)
+            finally:
+                self.decline = False
+            if proxy is None:               # what every endpoint does (_WrappingFactory.buildProtocol): the attempt fails
+                self.injected.append(error.NoProtocol())
+                att["d"].errback(Failure(self.injected[-1]))
+                return "ok"
             t = _Transport()
             self.conns.append({"proxy": proxy, "t": t, "app": proxy._protocol})
             proxy.makeConnection(t)
@@ -309,13 +526,16 @@ class World:
             if not live:
                 return "skip"
             live[0]["live"] = False
-            live[0]["d"].errback(Failure(ConnectionRefusedError("refused")))
+            self.injected.append(_CFAIL[reason]() if reason else ConnectionRefusedError("refused"))
+            live[0]["d"].errback(Failure(self.injected[-1]))
             return "ok"
-        if k in ("prepok", "prepfail"):
+        if k in ("prepok", "prepokv", "prepfail"):
             pend = self.pending_prep()
             if not pend:
                 return "skip"
-            if k == "prepok":
+            if k == "prepokv":
+                pend[0].callback("ready")
+            elif k == "prepok":
                 pend[0].callback(None)
             else:
                 pend[0].errback(Failure(RuntimeError("rejected later")))
@@ -329,12 +549,18 @@ class World:
             c["t"].closed = True
             self.handler = prog
             try:
-                c["proxy"].connectionLost(Failure(ConnectionResetError("lost")))
+                c["proxy"].connectionLost(Failure(_DROP[reason]() if reason else ConnectionResetError("lost")))
             finally:
                 self.handler = None
             return "ok"
+        if k == "cancel":
+            i = int(arg)
+            if i >= len(self.waiters) or self.waiters[i][0] != "p":
+                return "skip"
+            self.wdefs[i].cancel()
+            return "ok"
         if k == "adv":
-            self.clock.advance(int(arg))
+            self.clock.advance(int(arg) / self.scale)
             return "ok"
         raise ValueError(ev)
 
@@ -342,8 +568,8 @@ class World:
         ms = self.svc._machine.__automat_transitioner__._state.name
         conns = "".join("c" if c["t"].closing else "o" for c in self.open_conns()) or "-"
         att = "p" * len(self.live_attempts()) + "r" * len(self.pending_prep()) or "-"
-        calls = sorted(int(c.getTime() - self.clock.seconds()) for c in self.clock.getDelayedCalls())
-        timer = ",".join(map(str, calls)) or "-"
+        calls = sorted((c.getTime() - self.clock.seconds()) * self.scale for c in self.clock.getDelayedCalls())
+        timer = ",".join(str(int(x)) if x == int(x) else repr(x) for x in calls) or "-"
         fa = self.svc._machine.__automat_core__.failedAttempts
         w = ",".join(s[0] for s in self.waiters) or "-"
         s = ",".join(s[0] for s in self.stops) or "-"
@@ -356,11 +582,12 @@ def _angry(result):
 
 def play(case):
     """→ (World, [ (event, outcome, snapshot) ])"""
-    w = World(case["a"], case["b"], case["hook"])
+    w = world(case)
     steps = []
     for ev in case["ev"]:
         o = w.apply(ev)
-        steps.append((ev, o, w.snapshot()))
+        if norm(ev) is not None:            # the twin's events are invisible
+            steps.append((ev, o, w.snapshot()))
     return w, steps
 
 
@@ -370,7 +597,7 @@ def run_impl(case):
 
 
 def model_line(case):
-    return f"{case['a']} {case['b']} " + " ".join(case["ev"])
+    return f"{case['a']} {case['b']} " + " ".join(n for n in map(norm, case["ev"]) if n is not None)
 
 
 # ------------------------------------------------------------------------------------------
@@ -379,14 +606,17 @@ def model_line(case):
 def _root(case, n, generic):
     """stable key: the root cause among the prepareConnection paths that the history prefix ev[:n+1] went through
     (every later symptom of a connection the machine lost track of is the same defect), else the generic key"""
-    w = World(case["a"], case["b"], case["hook"])
+    w = world(case)
     for i, ev in enumerate(case["ev"][:n + 1]):
+        if norm(ev) is None:
+            w.apply(ev)
+            continue
         prep = bool(w.pending_prep())
         att = bool(w.live_attempts())
-        kind, _, arg = ev.rstrip("!^").partition(":")
+        kind, arg = _split(ev)
         if kind == "drop" and prep and parse_drop(arg)[0] < len(w.open_conns()) and w.open_conns()[parse_drop(arg)[0]] is w.conns[-1]:
             return "prepare-drop-rejected"
-        if (kind == "prepfail" and prep) or (ev == "csucc:raise" and att):
+        if (kind == "prepfail" and prep) or (norm(ev) == "csucc:raise" and att):
             return "prepare-reject-leaks-connection"
         if kind == "stop" and prep:
             return "stop-during-prepare"
@@ -396,7 +626,7 @@ def _root(case, n, generic):
 
 def _check(case):
     a, b = case["a"], case["b"]
-    w = World(a, b, case["hook"])
+    w = world(case)
     fails = 0                       # consecutive failed attempts / unsolicited drops since the last good connection
     stop_called = False
     seen_timers = set()
@@ -407,12 +637,27 @@ def _check(case):
         pre_connects = w.connects
         pre_restarts = w.restarts
         where = f"event #{n} {ev}"
-        kind, _, arg = ev.rstrip("!^").partition(":")
-        prog = parse_drop(arg)[1] if kind == "drop" else ""
-        o = w.apply(ev)
 
         def bad(generic, detail):
             return {"key": _root(case, n, generic), "detail": f"{where}: {detail} [history {' '.join(case['ev'][:n + 1])}]"}
+
+        if norm(ev) is None:
+            # an event of the twin service: nothing the environment of the service under test sees may change
+            mine = w.env_view()
+            o = w.apply(ev)
+            if o.startswith("!"):
+                return bad("rejected-event", f"the twin service's event raised {o[1:]}")
+            if w.env_view() != mine:
+                return bad("disturbed-by-another-service",
+                           f"an event of another ClientService changed this service's environment: {mine} -> {w.env_view()}")
+            continue
+        theirs = w.twin.view() if w.twin is not None else None
+        kind, arg = _split(ev)
+        prog = parse_drop(arg)[1] if kind == "drop" else ""
+        o = w.apply(ev)
+        if w.twin is not None and theirs is not None and w.twin.view() != theirs:
+            return bad("disturbed-another-service",
+                       f"this service's event changed the environment of another ClientService: {theirs} -> {w.twin.view()}")
 
         if o == "!H":
             # the application handler's own exception came back to the reactor: not the service's doing — but only
@@ -442,9 +687,9 @@ def _check(case):
         for c in w.clock.getDelayedCalls():
             if id(c) not in seen_timers:
                 seen_timers.add(id(c))
-                delay = c.getTime() - w.clock.seconds()
+                delay = (c.getTime() - w.clock.seconds()) * w.scale
                 if delay != a * fails + b:
-                    return bad("retry-delay", f"retry scheduled in {delay}, policy({fails}) = {a * fails + b}")
+                    return bad("retry-delay", f"retry scheduled in {delay} time units (1/{w.scale} s), policy({fails}) = {a * fails + b}")
         if len(w.clock.getDelayedCalls()) > 1:
             return bad("two-timers", "two retries scheduled")
         if w.connects > pre_connects and kind not in ("start", "adv", "drop") and w.restarts == pre_restarts:
@@ -489,10 +734,13 @@ def _check(case):
 
 
 def _check_limits(case):
-    w = World(case["a"], case["b"], case["hook"])
+    w = world(case)
     reg = {}                        # waiter index -> [limit, failures seen]
     for n, ev in enumerate(case["ev"]):
-        kind, _, arg = ev.rstrip("!^").partition(":")
+        if norm(ev) is None:
+            w.apply(ev)
+            continue
+        kind, arg = _split(ev)
         before = len(w.waiters)
         had_att = bool(w.live_attempts()) or bool(w.pending_prep())
         o = w.apply(ev)
@@ -535,6 +783,14 @@ ALPHA_HANDLER = ["start", "stop", "when:-", "when:1", "csucc:plain", "cfail", "a
                  "stop!", "when:-!", "stop^", "when:-^"]
 
 
+# the environment dimensions (reasons, factory declining, hook result kinds) from every reached state; played with
+# half-second time units and a bare IProtocol application protocol
+ALPHA_ENV = ["start", "stop", "when:0", "when:2", "cancel:0", "cancel:1", "when:-^", "csucc:plain", "csucc:none", "cfail@cancelled", "cfail@dns", "cfail@done",
+             "drop:0@done", "drop:0@cancelled", "drop:0:T@done", "drop:0:wx@aborted", "adv:1", "adv:3"]
+ALPHA_ENV_HOOK = ["start", "stop", "when:1", "csucc:val", "csucc:fired", "csucc:failed", "csucc:raiseb", "csucc:coro", "csucc:none",
+                  "cfail@timeout", "prepokv", "prepfail", "drop:0@done", "adv:5"]
+
+
 def _random_prog(rng):
     body = "".join(rng.choice("wlmSTT") for _ in range(rng.choice([0, 0, 1, 1, 2, 3])))
     end = rng.choice(["x", "x", "b", ""]) if body else rng.choice(["x", "x", "b"])
@@ -543,6 +799,32 @@ def _random_prog(rng):
 
 def corpus():
     return [
+        # --- white-box mutation audit: one minimal history per environment dimension ---
+        # half-second time unit: policy(1) = 0.5 s, policy(2) = 1 s; the retry must come exactly then (m04: delay rounded)
+        {"a": 1, "b": 0, "hook": False, "scale": 2, "ev": ["start", "cfail", "adv:1", "cfail", "adv:1", "adv:1", "cfail", "adv:3"]},
+        {"a": 3, "b": 1, "hook": False, "scale": 8, "ev": ["start", "csucc:plain", "drop:0", "adv:3", "adv:1", "cfail", "adv:7"]},
+        # twelve consecutive failures: the policy is asked for 11, 12 (m05: argument capped at 10)
+        {"a": 1, "b": 0, "hook": False, "ev": ["start"] + [e for i in range(1, 13) for e in ("cfail", "adv:%d" % i)]},
+        # orderly close by the peer / attempt failing with CancelledError still count as failures (m03)
+        {"a": 2, "b": 0, "hook": False, "ev": ["start", "csucc:plain", "drop:0@done", "adv:2", "cfail@cancelled", "adv:3", "adv:1"]},
+        {"a": 1, "b": 1, "hook": False, "ev": ["when:1", "start", "cfail@cancelled", "when:2", "adv:2", "cfail@done", "adv:3", "cfail@dns"]},
+        # a bare IProtocol provider (no .transport): stopService must still close the connection (m06)
+        {"a": 1, "b": 1, "hook": False, "app": "bare", "ev": ["start", "csucc:plain", "when:-", "stop", "drop:0@done", "start", "csucc:plain",
+                                                                   "drop:0:Tx"]},
+        # the application's factory declines the connection: a failed attempt (m07)
+        {"a": 1, "b": 1, "hook": False, "ev": ["start", "when:1", "csucc:none", "adv:2", "csucc:none", "adv:3", "csucc:plain"]},
+        # two services on one factory object: each learns of its own losses only (m08)
+        {"a": 1, "b": 1, "hook": False, "ev": ["tstart", "tconn", "start", "csucc:plain", "drop:0", "adv:2", "tdrop", "tadv", "csucc:plain",
+                                                "tstop", "stop", "drop:0"]},
+        {"a": 1, "b": 1, "hook": False, "ev": ["start", "csucc:plain", "tstart", "tconn", "tdrop", "drop:0", "tadv", "adv:2"]},
+        {"a": 1, "b": 1, "hook": False, "ev": ["tstart", "start", "csucc:plain", "drop:0", "tconn", "adv:2", "tdrop"]},
+        # a consumer cancels its whenConnected Deferred after a failure was counted against it; the service fires the others (m13)
+        {"a": 1, "b": 1, "hook": False, "ev": ["start", "when:2", "when:1", "cfail", "cancel:0", "cancel:1", "when:-", "adv:2", "csucc:plain", "when:-"]},
+        {"a": 1, "b": 1, "hook": False, "ev": ["when:-^", "when:2", "cancel:0", "cancel:0", "cfail", "cancel:1", "stop", "when:1^", "cancel:2", "cfail"]},
+        {"a": 1, "b": 1, "hook": False, "ev": ["start", "csucc:plain", "stop", "when:-", "when:-^", "cancel:3", "cancel:1", "drop:0", "cfail", "adv:2", "csucc:plain"]},
+        # what the hook returns is ignored (m09); a coroutine hook is waited for (m10)
+        {"a": 1, "b": 1, "hook": True, "ev": ["start", "when:-", "csucc:val", "drop:0", "adv:2", "csucc:fired", "when:-", "stop", "drop:0"]},
+        {"a": 1, "b": 1, "hook": True, "ev": ["start", "when:-", "csucc:coro", "when:1", "prepokv", "when:-", "drop:0", "adv:2", "csucc:defer", "prepokv"]},
         # the application's connectionLost handler raises while an established connection drops (seeded change C58-2):
         # the service must notice the loss, schedule the retry, make the next whenConnected wait, let stopService finish
         {"a": 5, "b": 0, "hook": False, "ev": ["start", "csucc:plain", "when:-", "drop:0:x", "when:-", "adv:4", "adv:1",
@@ -579,7 +861,7 @@ def corpus():
     ]
 
 
-def _bfs(alpha, hook, depth, a, b, cap):
+def _bfs(alpha, hook, depth, a, b, cap, **dims):
     """every event from every distinct snapshot reached on the real service (state hashing), to `depth`"""
     seen = set()
     frontier = [[]]
@@ -587,7 +869,7 @@ def _bfs(alpha, hook, depth, a, b, cap):
         nxt = []
         for h in frontier:
             for ev in alpha:
-                case = {"a": a, "b": b, "hook": hook, "ev": h + [ev]}
+                case = dict({"a": a, "b": b, "hook": hook, "ev": h + [ev]}, **dims)
                 yield case
                 w, steps = play(case)
                 ev_, o, snap = steps[-1]
@@ -617,7 +899,7 @@ def _abstract(snap):
 
 def _random_history(rng, hook, n):
     alpha = ALPHA_HOOK if hook else ALPHA_NOHOOK
-    extra = ["when:0", "when:3", "adv:0", "adv:2", "adv:20", "drop:1", "drop:2"]
+    extra = ["when:0", "when:3", "adv:0", "adv:2", "adv:20", "drop:1", "drop:2", "cancel:0", "cancel:1", "cancel:2"]
     ev = ["start"] if rng.random() < 0.8 else []
     for _ in range(n):
         r = rng.random()
@@ -652,21 +934,109 @@ def _churn_history(rng, hook, n):
     return ev
 
 
+def _decorate(rng, case):
+    """the same history in another environment: fractional time unit, bare application protocol, failure / loss
+    reasons, a factory that declines, other kinds of hook results, a twin service on the same factory"""
+    ev = []
+    for e in case["ev"]:
+        r = rng.random()
+        if e == "cfail":
+            if r < 0.15:
+                e = "csucc:none"
+            elif r < 0.7:
+                e = "cfail@" + rng.choice(sorted(_CFAIL))
+        elif e.startswith("drop:") and r < 0.7:
+            e += "@" + rng.choice(sorted(_DROP))
+        elif e == "csucc:ok" and r < 0.6:
+            e = rng.choice(["csucc:val", "csucc:fired"])
+        elif e == "csucc:defer" and r < 0.5:
+            e = "csucc:coro"
+        elif e == "csucc:raise" and r < 0.5:
+            e = rng.choice(["csucc:failed", "csucc:raiseb"])
+        elif e == "prepok" and r < 0.5:
+            e = "prepokv"
+        ev.append(e)
+    for _ in range(rng.choice([0, 0, 1, 2, 3])):       # consumers that give up waiting
+        at = rng.randrange(len(ev) + 1)
+        nw = sum(1 for e in ev[:at] if e.startswith("when:"))
+        ev.insert(at, "cancel:%d" % rng.randrange(nw + 1))
+    if rng.random() < 0.45:                 # a second service on the same factory, started before or in the middle
+        head = rng.choice([["tstart", "tconn"], ["tstart", "tconn"], ["tstart"], []])
+        at = 0 if rng.random() < 0.6 else rng.randrange(len(ev) + 1)
+        ev[at:at] = head
+        for _ in range(rng.choice([0, 1, 2, 4])):
+            ev.insert(rng.randrange(len(ev) + 1), rng.choice(["tstart", "tconn", "tconn", "tdrop", "tdrop", "tfail", "tstop", "tadv"]))
+    return dict(case, ev=ev, scale=rng.choice([1, 2, 4, 8]), app=rng.choice(["protocol", "bare"]))
+
+
+def _streak_history(rng, a, b, n):
+    """n consecutive failed attempts (no successful connection in between), each retry awaited exactly or generously;
+    stop/start pairs, waiters and declined connections in between; then a connection and its loss (the count restarts)"""
+    ev = ["start"]
+    for i in range(1, n + 1):
+        ev.append(rng.choice(["cfail", "cfail", "cfail@timeout", "cfail@cancelled", "csucc:none"]))
+        delay = a * i + b
+        r = rng.random()
+        if r < 0.08:
+            ev += ["stop", "start"]         # the retry is cancelled; the count of consecutive failures goes on
+            continue
+        if r < 0.16:
+            ev.append(rng.choice(["when:-", "when:1", "when:3"]))
+        if delay > 1 and rng.random() < 0.3:
+            ev += ["adv:%d" % (delay - 1), "adv:1"]
+        else:
+            ev.append("adv:%d" % (delay if rng.random() < 0.6 else delay + rng.choice([1, 50])))
+    ev += ["csucc:plain", rng.choice(["drop:0", "drop:0@done", "drop:0:x"]), "adv:%d" % (a + b), "cfail"]
+    return ev
+
+
+def _waiter_history(rng, n):
+    """consumers come and go: whenConnected with limits 0..4 (some restart / raise from their callback), consumers that
+    cancel their Deferred, between failed attempts (each one counted against the registered limits), retries, connections"""
+    ev = ["start"] if rng.random() < 0.8 else []
+    nw = 0
+    for _ in range(n):
+        r = rng.random()
+        if r < 0.30:
+            ev.append("when:" + rng.choice(["-", "0", "1", "2", "2", "3", "4"]) + rng.choice(["", "", "", "!", "^"]))
+            nw += 1
+        elif r < 0.48:
+            ev.append("cancel:%d" % rng.randrange(nw + 1))
+        elif r < 0.70:
+            ev.append(rng.choice(["cfail", "cfail", "cfail@cancelled", "csucc:none"]))
+        elif r < 0.85:
+            ev.append(rng.choice(["adv:1", "adv:5", "adv:20"]))
+        else:
+            ev.append(rng.choice(["csucc:plain", "drop:0", "drop:0:w", "stop", "start", "stop^"]))
+    return ev
+
+
 def generate(rng, tier):
     depth = 7 if tier == "quick" else 9
     cap = 600 if tier == "quick" else 6000
     yield from _bfs(ALPHA_NOHOOK, False, depth, 1, 1, cap)
     yield from _bfs(ALPHA_HOOK, True, depth, 1, 1, cap)
     yield from _bfs(ALPHA_HANDLER, False, depth, 1, 1, cap)
+    yield from _bfs(ALPHA_ENV, False, depth - 1, 1, 1, cap // 2, scale=2, app="bare")
+    yield from _bfs(ALPHA_ENV_HOOK, True, depth - 1, 1, 1, cap // 2, scale=4, app="bare")
     n = 800 if tier == "quick" else 30000
     for i in range(n):
         hook = rng.random() < 0.5
-        yield {"a": rng.choice([0, 1, 1, 2, 3]), "b": rng.choice([0, 1, 2, 7]), "hook": hook,
-               "ev": _random_history(rng, hook, rng.choice([6, 10, 16, 25, 40]))}
+        case = {"a": rng.choice([0, 1, 1, 2, 3]), "b": rng.choice([0, 1, 2, 7]), "hook": hook,
+                "ev": _random_history(rng, hook, rng.choice([6, 10, 16, 25, 40]))}
+        yield _decorate(rng, case) if i % 2 else case
     for i in range(n // 2):
         hook = rng.random() < 0.3
-        yield {"a": rng.choice([0, 1, 1, 2, 3]), "b": rng.choice([0, 1, 2, 7]), "hook": hook,
-               "ev": _churn_history(rng, hook, rng.choice([4, 8, 12, 20, 30]))}
+        case = {"a": rng.choice([0, 1, 1, 2, 3]), "b": rng.choice([0, 1, 2, 7]), "hook": hook,
+                "ev": _churn_history(rng, hook, rng.choice([4, 8, 12, 20, 30]))}
+        yield _decorate(rng, case) if i % 2 else case
+    for i in range(250 if tier == "quick" else 4000):
+        yield {"a": rng.choice([0, 1, 1, 2]), "b": rng.choice([0, 1, 2]), "hook": False, "scale": rng.choice([1, 2]),
+               "app": rng.choice(["protocol", "bare"]), "ev": _waiter_history(rng, rng.choice([6, 10, 16, 25]))}
+    for i in range(60 if tier == "quick" else 800):
+        a, b = rng.choice([1, 1, 2, 3]), rng.choice([0, 1, 7])
+        yield {"a": a, "b": b, "hook": False, "scale": rng.choice([1, 1, 4]), "app": "protocol",
+               "ev": _streak_history(rng, a, b, rng.choice([12, 12, 18, 18, 35, 35, 70, 130]))}
 
 
 def shrink(case):
@@ -688,6 +1058,15 @@ def shrink(case):
                     yield dict(case, ev=ev[:i] + [head + ":" + prog[:j] + prog[j + 1:]] + ev[i + 1:])
     if (case["a"], case["b"]) != (1, 1):
         yield dict(case, a=1, b=1)
+    if case.get("scale", 1) != 1:
+        yield dict(case, scale=1)
+    if case.get("app", "protocol") != "protocol":
+        yield dict(case, app="protocol")
+    for i, e in enumerate(ev):
+        if "@" in e:
+            yield dict(case, ev=ev[:i] + [e.partition("@")[0]] + ev[i + 1:])
+        elif e in _VARIANT:
+            yield dict(case, ev=ev[:i] + [_VARIANT[e]] + ev[i + 1:])
 
 
 def search(rng, tier, disagreeing):
@@ -698,11 +1077,14 @@ def search(rng, tier, disagreeing):
 
 def _kind(ev):
     """event kind for the class signature; a drop with a handler program: which calls it makes and how it ends"""
+    ev, _, reason = ev.partition("@")
+    mark = ("@" + reason if reason else "") + ("~" + ev.partition(":")[2] if ev in _VARIANT else "")
+    ev = _VARIANT.get(ev, ev)
     k, _, arg = ev.partition(":")
     if k == "drop" and ":" in arg:
         prog = arg.split(":")[1]
-        return "drop[" + "".join(sorted(set(prog.replace("l", "w").replace("m", "w")))) + "]"
-    return k + ("!" if ev.endswith("!") else "^" if ev.endswith("^") else "")
+        return "drop[" + "".join(sorted(set(prog.replace("l", "w").replace("m", "w")))) + "]" + mark
+    return k + ("!" if ev.endswith("!") else "^" if ev.endswith("^") else "") + mark
 
 
 def tag(case, out):
@@ -711,9 +1093,11 @@ def tag(case, out):
     steps = out.split("|")
     triples = set()
     prev = "Init"
-    for ev, st in zip(case["ev"], steps):
+    for ev, st in zip(visible(case), steps):
         o, _, snap = st.partition("/")
         triples.add((prev, _kind(ev), o))
         prev = snap.split(";")[0]
     h = hashlib.sha1(repr(sorted(triples)).encode()).hexdigest()[:6]
-    return f"{'hook' if case['hook'] else 'nohook'}:{prev}:{len(triples)}:{h}"
+    dims = ("/%d" % case["scale"] if case.get("scale", 1) != 1 else "") + ("/bare" if case.get("app") == "bare" else "") \
+        + ("/twin" if len(visible(case)) != len(case["ev"]) else "")
+    return f"{'hook' if case['hook'] else 'nohook'}{dims}:{prev}:{len(triples)}:{h}"
